@@ -1,1 +1,128 @@
-/-! STUB — property C02 is not built yet. -/
+import Martian.Lemmas.Proxy
+import Martian.Lemmas.ProxyTrace
+import Martian.Lemmas.ProxyState
+/-!
+C02 — Each exchange runs request then response modifiers exactly once with one context.
+Theorems about the exchange machine `Martian.Proxy.runConn` (model of `handleLoop`/`handle`/
+`handleConnectRequest`), for every connection script: any number of requests, any mix of plain,
+blind-CONNECT and MITM requests, any assignment of modifier behaviours and origin outcomes,
+shutdown flag on or off. `T` below is the whole event trace of one client connection.
+-/
+namespace Martian.Props.C02
+open Martian.Proxy
+
+variable (sd : Bool) (base : Nat) (items : List Item)
+
+/-- Every request the proxy reads gets exactly one request-modifier call (and no request is read twice). -/
+theorem reqmod_exactly_once (k : Nat) :
+    countP (isReqmod k) (runConn sd base items) = countP (isRead k) (runConn sd base items) ∧
+      countP (isRead k) (runConn sd base items) ≤ 1 := by
+  unfold runConn
+  rw [count_run local_reqmod, count_run local_read]
+  cases at? sd base {} 0 items k with
+  | none => simp
+  | some p => obtain ⟨s', it⟩ := p; simp [own_reqmod, own_read]
+
+/-- The request modifier of an exchange runs before any upstream contact (round trip or dial) of it. -/
+theorem reqmod_before_upstream : okUp [] (runConn sd base items) = true :=
+  okUp_run sd base {} 0 [] items []
+
+/-- Unless the connection was hijacked during the exchange, the response modifier runs exactly once
+and exactly one response is written; it never runs twice. -/
+theorem resmod_exactly_once_unless_hijacked (k : Nat)
+    (hread : countP (isRead k) (runConn sd base items) = 1) :
+    countP (isResmod k) (runConn sd base items) ≤ 1 ∧
+    (countP (isHijacked k) (runConn sd base items) = 0 →
+      countP (isResmod k) (runConn sd base items) = 1 ∧ countP (isWrite k) (runConn sd base items) = 1) := by
+  unfold runConn at *
+  rw [count_run local_read] at hread
+  rw [count_run local_resmod, count_run local_hijacked, count_run local_write]
+  cases h : at? sd base {} 0 items k with
+  | none => simp [h] at hread
+  | some p =>
+    obtain ⟨s', it⟩ := p
+    simp only [own_resmod, own_hijacked, own_write]
+    cases hq : it.rq <;> cases hs : it.rs <;> simp [Item.hij, hq, hs]
+
+/-- A request-side hijack means the response modifier never runs for that exchange. -/
+theorem no_resmod_after_request_hijack (k : Nat) (s' : St) (it : Item)
+    (h : at? sd base {} 0 items k = some (s', it)) (hq : it.rq = .hijack) :
+    countP (isResmod k) (runConn sd base items) = 0 := by
+  unfold runConn; rw [count_run local_resmod, h]; simp [own_resmod, hq]
+
+/-- Request and response modifier of one exchange see the same context, and it is the exchange's own
+(`base + k`): every `reqmod`/`resmod`/`link` event of exchange `k` carries context id `base + k`. -/
+theorem same_context_for_request_and_response :
+    ∀ e ∈ runConn sd base items,
+      (∀ k c h s t, e = .reqmod k c h s t → c = base + k) ∧ (∀ k c st, e = .resmod k c st → c = base + k) := by
+  have key : ∀ e ∈ runConn sd base items, ctxOK base e = true := by
+    refine forall_run (fun e => ctxOK base e = true) sd base ?_ ?_ ?_ {} 0 [] items
+    · intro s i it e he
+      exact List.all_eq_true.mp (ctxOK_item sd base s i it) e he
+    · intro c; rfl
+    · rfl
+  intro e he
+  have := key e he
+  constructor
+  · intro k c h s t heq; subst heq; simpa [ctxOK] using this
+  · intro k c st heq; subst heq; simpa [ctxOK] using this
+
+/-- Context ids are unique per exchange. -/
+theorem ctx_ids_pairwise_distinct : (links (runConn sd base items)).Nodup :=
+  links_nodup sd base {} 0 [] items
+
+/-- When the connection is over no context remains linked: every link has its unlink. -/
+theorem ctx_table_empty_at_quiescence (c : Nat) :
+    (unlinks (runConn sd base items)).count c = (links (runConn sd base items)).count c := by
+  have := unlinks_count sd base {} 0 [] items c
+  simpa [runConn] using this
+
+/-- A request-modifier error never aborts the exchange: it is surfaced as a Warning on the request and
+(unless a modifier hijacks) the exchange still gets its response-modifier call and its response. -/
+theorem request_modifier_error_never_aborts (k : Nat) (s' : St) (it : Item)
+    (h : at? sd base {} 0 items k = some (s', it)) (he : rqErr it.rq = true) :
+    countP (isWarnReq k) (runConn sd base items) = 1 ∧
+      (it.rs ≠ .hijack → countP (isResmod k) (runConn sd base items) = 1 ∧
+        countP (isWrite k) (runConn sd base items) = 1) := by
+  unfold runConn
+  rw [count_run local_warnReq, count_run local_resmod, count_run local_write, h]
+  simp only [own_warnReq, own_resmod, own_write, he, if_true]
+  cases hq : it.rq <;> simp [rqErr, hq] at he <;> cases hs : it.rs <;> simp [Item.hij, hq, hs]
+
+/-- A response-modifier error never aborts the exchange: Warning on the response, response written. -/
+theorem response_modifier_error_never_aborts (k : Nat) (s' : St) (it : Item)
+    (h : at? sd base {} 0 items k = some (s', it)) (hq : it.rq ≠ .hijack) (hs : it.rs = .err) :
+    countP (isWarnRes k) (runConn sd base items) = 1 ∧ countP (isWrite k) (runConn sd base items) = 1 := by
+  unfold runConn
+  rw [count_run local_warnRes, count_run local_write, h]
+  simp only [own_warnRes, own_write]
+  cases hq' : it.rq <;> simp [Item.hij, hq', hs] at * 
+
+/-- Skip-round-trip: zero upstream contact, and a 200 that still passes through the response modifier. -/
+theorem skip_roundtrip_zero_upstream_and_200_through_resmod (k : Nat) (s' : St)
+    (rc : Bool) (rq : ReqB) (rs : ResB) (org : Org)
+    (h : at? sd base {} 0 items k = some (s', .x rc rq rs org)) (hskip : rqSkip rq = true) :
+    countP (isUpstream k) (runConn sd base items) = 0 ∧
+      Ev.resmod k (base + k) 200 ∈ runConn sd base items := by
+  constructor
+  · unfold runConn; rw [count_run local_upstream, h]
+    cases rq <;> simp [rqSkip] at hskip <;> cases rs <;> cases org <;>
+      simp [handleItem, handleX, pre, rqErr, rqSkip, countP, isUpstream]
+  · apply mem_run_of_at? sd base {} 0 [] items k s' _ h
+    cases rq <;> simp [rqSkip] at hskip <;> cases rs <;> cases org <;>
+      simp [handleItem, handleX, pre, rqErr, rqSkip]
+
+/-- After a modifier hijacks the connection the proxy does nothing more on it: the only events after
+`hijacked` are context bookkeeping and closing the connection. -/
+theorem hijack_stops_io : quiet (runConn sd base items) = true :=
+  quiet_run sd base {} 0 [] items
+
+/-! Non-vacuity: a concrete connection in which the hypotheses above are met. -/
+example : at? false 0 {} 0 [.x false .pass .pass (.ok 200 false), .x false .errSkip .err (.ok 200 false),
+    .x false .hijack .pass .fail] 1 = some ({}, .x false .errSkip .err (.ok 200 false)) := by decide
+example : countP (isRead 2) (runConn false 0 [.x false .pass .pass (.ok 200 false), .x false .errSkip .err (.ok 200 false),
+    .x false .hijack .pass .fail]) = 1 := by decide
+example : countP (isResmod 2) (runConn false 0 [.x false .pass .pass (.ok 200 false), .x false .errSkip .err (.ok 200 false),
+    .x false .hijack .pass .fail]) = 0 := by decide
+
+end Martian.Props.C02
